@@ -21,9 +21,7 @@ Print Assumptions sync_idempotent.
 (* ... in particular it creates nothing new *)
 Theorem second_run_creates_nothing : forall g x x1 x2, wf_groups g = true ->
   sync_groups g x = Some x1 -> sync_groups g x1 = Some x2 -> x2 = x1 /\ size x2 = size x1.
-Proof.
-  intros g x x1 x2 W H1 H2. rewrite (sync_groups_idempotent g x x1 W H1) in H2. injection H2 as <-. auto.
-Qed.
+Proof. exact second_run_nothing. Qed.
 Print Assumptions second_run_creates_nothing.
 
 (* 2. key lemma: after an entry ran, the object it created from find | set (or the one it matched and
@@ -66,10 +64,7 @@ Print Assumptions dump_load_roundtrip_partial.
       — legal for NewObject and meaning "guess the type" — does not survive *)
 Theorem newobj_empty_hint_refuted : NEWOBJ_DUMP_ONLY_IF_TRUTHY = true -> NEWOBJ_LOAD_REQUIRED = true ->
   forall is_uuid, exists v, construct is_uuid (represent v) <> ROk v.
-Proof.
-  intros H1 H2 is_uuid. exists (YNew [] KNil).
-  rewrite (empty_hint_fails is_uuid H1 H2 KNil eq_refl eq_refl). discriminate.
-Qed.
+Proof. exact empty_hint_witness. Qed.
 Print Assumptions newobj_empty_hint_refuted.
 
 (* non-vacuity *)
